@@ -15,12 +15,16 @@ Open Scope Z_scope.
    of the _refuted theorems below):
      forall m kw, read (write m kw) = Some (expected m kw).
    Proved: for every map and every keyword combination for which the writer
-   produces a file, under the guards collected in `clean`
-     - phase names are non-empty and contain no blanks,
+   produces a file (C14_write_defined: it does unless the map has no point in
+   data or the caller names a missing property / layer), under the guards
+   collected in `clean`
+     - phase names are non-empty and their words are separated by single blanks
+       (name_ok; names MAY contain blanks since the reader's "Formula" line was repaired),
      - extra column names (blanks -> '_') are distinct and differ from the ten standard columns,
      - each axis with more than one point is resolved by the 5 printed decimals (axis_ok),
      - no indexed point has a written confidence index of exactly -1,
-     - more than one point is written,
+   (no guard on the number of points any more: maps of 1, 2, 3 points, 3 points
+   in data, one point in data, single-column and single-point maps are covered)
    the reader returns exactly `expected`: same grid shape (unit axes dropped)
    and 5-decimal steps; phase id = position in the phase list (1..n) for
    indexed points and -1 otherwise; rotations = the 5-decimal Euler angles for
@@ -35,7 +39,7 @@ Theorem C14_roundtrip_outside_finding :
          (prt3 prt6 : T -> Z) (to_eu : Rot -> T * T * T)
          (m : @cmap T Rot) (kw : kwargs) (f : file) (g : @geom T),
     write t0 t1 coord rnd5 q32 prt3 prt6 to_eu m kw = Some f ->
-    geometry t0 t1 m = Some g ->
+    geometry t1 m = Some g ->
     clean coord rnd5 q32 m kw g ->
     read f = Some (expected coord rnd5 q32 prt3 to_eu m kw g).
 Proof. exact @roundtrip. Qed.
@@ -47,12 +51,75 @@ Print Assumptions C14_roundtrip_outside_finding.
 Example C14_roundtrip_nonvacuous :
   exists f, zwrite m_good kw_good = Some f /\ zgeometry m_good = Some g_good /\ zclean m_good kw_good g_good.
 Proof. exact good_instance. Qed.
+(* ... also for a single-point map whose phase name contains a blank *)
+Example C14_roundtrip_nonvacuous_point :
+  exists f, zwrite m_point kw0 = Some f /\ zgeometry m_point = Some g_point /\ zclean m_point kw0 g_point.
+Proof. exact point_instance. Qed.
 Example C14_roundtrip_value_nonvacuous :
   (f <- zwrite m_good kw_good ;; read f) = Some (zexpected m_good kw_good g_good)
   /\ r_pid (zexpected m_good kw_good g_good) = [1; 2; 1; -1; -1; 2]
   /\ map fst (r_phases (zexpected m_good kw_good g_good)) = [-1; 1; 2]
   /\ map fst (r_props (zexpected m_good kw_good g_good)) = ["iq"; "ci"; "detector_signal"; "fit"; "dp"]%string.
 Proof. exact good_roundtrip_value. Qed.
+
+(* the writer is defined: a map is refused only when it has no point in data,
+   a phase has a point group outside the named groups, or a value cannot be
+   taken at a point in data (missing property name, layer index on 1-D
+   rotations / out of range).  No map is refused for its size or shape. *)
+Theorem C14_write_defined :
+  forall (T Rot : Type) (t0 t1 : T) (coord : T -> nat -> Z) (rnd5 : T -> Z) (q32 : Z -> Z)
+         (prt3 prt6 : T -> Z) (to_eu : Rot -> T * T * T) (m : @cmap T Rot) (kw : kwargs),
+    in_pts m <> [] ->
+    (forall kv, In kv (real_phases m) -> pg_known (snd kv)) ->
+    (forall p, nth p (m_in m) false = true -> point_ok rnd5 q32 to_eu m kw p) ->
+    exists f, write t0 t1 coord rnd5 q32 prt3 prt6 to_eu m kw = Some f.
+Proof. exact @write_defined. Qed.
+Print Assumptions C14_write_defined.
+
+(* plain identifiers (the former guard) satisfy the guard on names *)
+Theorem C14_name_guard_weaker : forall s, nospace s = true -> sempty s = false -> name_ok s.
+Proof. exact nospace_name_ok. Qed.
+Print Assumptions C14_name_guard_weaker.
+
+(* the strata of the repaired defects, computed in the model: each map is
+   written, read back as `expected`, and has the stated shape / ids / names *)
+Theorem C14_roundtrip_small_map :
+  rt_exp (mk 1 3 (all_in 3) [0; 0; 0] one_phase []) kw0
+         (fun r => r_shape r = [3%nat] /\ r_dx r = 150000 /\ r_pid r = [1; 1; 1])
+  /\ rt_exp (mk 1 2 (all_in 2) [0; 0] one_phase []) kw0 (fun r => r_shape r = [2%nat] /\ r_pid r = [1; 1])
+  /\ rt_exp (mk 3 1 (all_in 3) [0; -1; 0] one_phase []) kw0 (fun r => r_shape r = [3%nat] /\ r_pid r = [1; -1; 1]).
+Proof. exact fixed_small_map. Qed.
+Print Assumptions C14_roundtrip_small_map.
+Theorem C14_roundtrip_three_in_data :
+  rt_exp (mk 2 3 [true; true; true; false; false; false] [0; 0; 0; 0; 0; 0] one_phase []) kw0
+         (fun r => r_shape r = [3%nat] /\ r_pid r = [1; 1; 1]).
+Proof. exact fixed_three_in_data. Qed.
+Print Assumptions C14_roundtrip_three_in_data.
+Theorem C14_roundtrip_single_row :
+  rt_exp (mk 2 3 [false; true; false; false; false; false] [0; 0; 0; 0; 0; 0] one_phase []) kw0
+         (fun r => r_shape r = [] /\ r_pid r = [1] /\ r_eul r = [(1000, 50000, 100000)]).
+Proof. exact fixed_single_row. Qed.
+Print Assumptions C14_roundtrip_single_row.
+Theorem C14_roundtrip_single_column :
+  rt_exp (mk 4 1 (all_in 4) [0; 0; 0; 0] one_phase []) kw0
+         (fun r => r_shape r = [4%nat] /\ r_dy r = 50000 /\ r_dx r = 0).
+Proof. exact fixed_single_column. Qed.
+Print Assumptions C14_roundtrip_single_column.
+Theorem C14_roundtrip_single_point :
+  rt_exp (mk 1 1 [true] [0] one_phase []) kw0 (fun r => r_shape r = [] /\ r_pid r = [1]).
+Proof. exact fixed_single_point. Qed.
+Print Assumptions C14_roundtrip_single_point.
+Theorem C14_roundtrip_blank_name :
+  rt_exp (mk 2 2 (all_in 4) [0; 0; 0; 0] [(0, ph "iron alpha" "432")] []) kw0
+         (fun r => map (fun kv => rp_name (snd kv)) (r_phases r) = ["iron alpha"%string]).
+Proof. exact fixed_blank_name. Qed.
+Print Assumptions C14_roundtrip_blank_name.
+Theorem C14_default_ds :
+  rt_exp (mk 2 2 (all_in 4) [0; 0; 0; 0] one_phase
+             [{| pr_name := "ds"; pr_multi := false; pr_vals := map (fun v => [v]) [5; 6; 7; 8] |}]) kw0
+         (fun r => assoc_s "detector_signal" (r_props r) = Some [5; 6; 7; 8]).
+Proof. exact fixed_default_ds. Qed.
+Print Assumptions C14_default_ds.
 
 (* alias table, all 38 named point groups: the name the writer prints for the
    proper subgroup is one word and the reader resolves it to that subgroup *)
@@ -100,27 +167,20 @@ Print Assumptions C14_header_phases.
 
 (* ---- strata where the faithful model violates the property (each replayed
    on the implementation by the check; see known_findings.d/C14.json) *)
-Theorem C14_roundtrip_small_map_refuted : exists m kw, (m_rows m * m_cols m <= 3)%nat /\ zwrite m kw = None.
-Proof. exact ref_small_map. Qed.
-Theorem C14_roundtrip_three_in_data_refuted :
-  exists m kw, length (in_pts m) = 3%nat /\ zwrite m kw = None.
-Proof. exact ref_three_in_data. Qed.
-Theorem C14_roundtrip_single_row_refuted :
-  exists m kw, match zwrite m kw with Some f => read f = None | None => False end.
-Proof. exact ref_single_row. Qed.
-Theorem C14_roundtrip_single_column_refuted :
-  exists m kw, m_rows m = 4%nat /\ m_cols m = 1%nat /\ rt_sat (zwrite m kw) (fun r => r_shape r = [] /\ r_dy r = 0).
-Proof. exact ref_single_column. Qed.
-Theorem C14_roundtrip_blank_name_refuted :
-  exists m kw, map (fun kv => ph_name (snd kv)) (m_phases m) = ["iron alpha"%string]
-               /\ rt_sat (zwrite m kw) (fun r => map (fun kv => rp_name (snd kv)) (r_phases r) = ["alpha"%string]).
-Proof. exact ref_blank_name. Qed.
+Theorem C14_roundtrip_blank_run_name_refuted :
+  exists m kw, map (fun kv => ph_name (snd kv)) (m_phases m) = [" lead"%string]
+               /\ rt_sat (zwrite m kw) (fun r => map (fun kv => rp_name (snd kv)) (r_phases r) = ["lead"%string]).
+Proof. exact ref_blank_run_name. Qed.
+Print Assumptions C14_roundtrip_blank_run_name_refuted.
 Theorem C14_roundtrip_ci_collision_refuted :
   exists m kw, m_pid m = [0; 0; 0; 0] /\ rt_sat (zwrite m kw) (fun r => r_pid r = [1; -1; 1; 1]).
 Proof. exact ref_ci_collision. Qed.
+Print Assumptions C14_roundtrip_ci_collision_refuted.
 Theorem C14_roundtrip_coarse_step_refuted :
   exists m kw, m_rows m = 1%nat /\ m_cols m = 110%nat /\ rt_sat (cwrite m kw) (fun r => r_shape r = [111%nat] /\ r_dx r = 100).
 Proof. exact ref_coarse_step. Qed.
+Print Assumptions C14_roundtrip_coarse_step_refuted.
 Theorem C14_roundtrip_extra_named_ci_refuted :
   exists m kw, m_pid m = [0; -1; 0; 1] /\ rt_sat (zwrite m kw) (fun r => r_pid r = [1; 0; 1; 2]).
 Proof. exact ref_extra_named_ci. Qed.
+Print Assumptions C14_roundtrip_extra_named_ci_refuted.
